@@ -225,21 +225,28 @@ func job(pkg, fn string, id string, args ...int64) sym.Job {
 	return sym.Job{ID: id, Pkg: "verif/harness/" + pkg, Func: fn, Args: args}
 }
 
-// twoStepPairs lists the (first, second) opcode pairs of the two-instruction jobs of C01/C02:
-// the block moves in every combination (a repeating MVN/MVP is re-executed once per byte, so the
-// second step is the second iteration), and a block move followed / preceded by ordinary
-// instructions; thorough adds every opcode twice in a row and every opcode after a block move.
-func twoStepPairs(tier string) [][2]int {
-	const mvp, mvn = 0x44, 0x54
-	prs := [][2]int{{mvn, mvn}, {mvp, mvp}, {mvn, mvp}, {mvp, mvn}, {mvn, 0xAD}, {mvp, 0x8D}, {0xC2, mvn}, {0xE2, mvp}, {0xAB, mvn}, {0xEB, 0xEB}, {0xC2, 0xA2}, {0xE2, 0xC2}, {0x28, 0xBB}}
-	if tier == "thorough" {
-		for op := 0; op < 256; op++ {
-			if op != mvn && op != mvp && op != 0xEB {
-				prs = append(prs, [2]int{op, op})
-			}
-			if op != mvn && op != mvp && op != 0xAD {
-				prs = append(prs, [2]int{mvn, op})
-			}
+// twoStepPairs lists the (first opcode, second opcode, width settings) of the two-instruction jobs
+// of C01/C02; the third element is a bit set over mx = m<<1|x. Quick: the block moves in every
+// combination (a repeating MVN/MVP is re-executed once per byte, so the second step is the second
+// iteration), block moves next to ordinary instructions and width switches, and every opcode twice
+// in a row at one width setting (op%4). Thorough: every opcode twice and after a block move, all
+// widths. STP and WAI are never first (what follows them is wake-up, outside C01).
+func twoStepPairs(tier string) [][3]int {
+	const mvp, mvn, all = 0x44, 0x54, 0xF
+	prs := [][3]int{{mvn, mvn, all}, {mvp, mvp, all}, {mvn, mvp, all}, {mvp, mvn, all}, {mvn, 0xAD, all}, {mvp, 0x8D, all}, {0xC2, mvn, all}, {0xE2, mvp, all}, {0xAB, mvn, all}, {0xEB, 0xEB, all}, {0xC2, 0xA2, all}, {0xE2, 0xC2, all}, {0x28, 0xBB, all}}
+	for op := 0; op < 256; op++ {
+		if op == 0xDB || op == 0xCB {
+			continue
+		}
+		mask := 1 << (op % 4)
+		if tier == "thorough" {
+			mask = all
+		}
+		if op != mvn && op != mvp && op != 0xEB {
+			prs = append(prs, [3]int{op, op, mask})
+		}
+		if tier == "thorough" && op != mvn && op != mvp && op != 0xAD {
+			prs = append(prs, [3]int{mvn, op, all})
 		}
 	}
 	return prs
@@ -265,6 +272,9 @@ func init() {
 				}
 				for _, pr := range twoStepPairs(tier) {
 					for mx := 0; mx < 4; mx++ {
+						if pr[2]>>mx&1 == 0 {
+							continue
+						}
 						m, x := mx>>1, mx&1
 						js = append(js, job("c01", "Step2", fmt.Sprintf("c01/two-steps/%s/%s-then-%s/m%dx%d", cpuNames[cpu], opName(pr[0]), opName(pr[1]), m, x), int64(cpu), int64(pr[0]), int64(pr[1]), int64(m), int64(x)))
 					}
@@ -297,6 +307,9 @@ func init() {
 			}
 			for _, pr := range twoStepPairs(tier) {
 				for mode := 0; mode < 4; mode++ {
+					if pr[2]>>mode&1 == 0 {
+						continue
+					}
 					js = append(js, job("c02", "Lockstep2", fmt.Sprintf("c02/two-steps/%s-then-%s/%s", opName(pr[0]), opName(pr[1]), modeNames[mode]), int64(pr[0]), int64(pr[1]), int64(mode)))
 				}
 			}
